@@ -1,1 +1,205 @@
-/-! # C19 — property theorems (to be filled in) -/
+import JokerVerif.Lemmas.DiagLemmas
+import Mathlib.Data.Rat.Floor
+import Mathlib.Algebra.Order.Field.Rat
+import Mathlib.Tactic.NormNum
+/-!
+# C19 — time-sampling diagnostics equal their definitions
+
+Property theorems only.  `α` is any linearly ordered field (in particular `ℚ`, the instance the driver executes,
+and `ℝ`); where a floor is needed (`phase`, i.e. `% 1.0`) any `FloorRing`.  Lists are arbitrary (no bound on the
+number of observations).  Phases are elements of `[0,1)`.
+-/
+set_option linter.unusedSectionVars false
+namespace Diag
+
+/-! ## MAP_sample -/
+section map
+variable {β : Type} [LinearOrder β] [Add β]
+
+/-- `MAP_sample`: the index returned is in range, its `ln_prior + ln_likelihood` is ≥ every row's, and it is the
+first such row (numpy's tie rule) -/
+theorem map_is_argmax (lnPrior lnLike : List β) (i : Nat) (h : mapIndex lnPrior lnLike = some i) :
+    ∃ v, (post lnPrior lnLike)[i]? = some v ∧
+      (∀ (j : Nat) x, (post lnPrior lnLike)[j]? = some x → x ≤ v) ∧
+      ∀ (j : Nat) x, j < i → (post lnPrior lnLike)[j]? = some x → x < v :=
+  argmax_spec h
+
+/-- the quantity maximised is the row-wise sum of the two columns -/
+theorem post_row (lnPrior lnLike : List β) (j : Nat) (hj : j < lnPrior.length) (hj' : j < lnLike.length) :
+    (post lnPrior lnLike)[j]? = some (lnPrior[j] + lnLike[j]) := by
+  simp [post, List.getElem?_zipWith, List.getElem?_eq_getElem hj, List.getElem?_eq_getElem hj']
+
+/-- a non-empty table has a MAP row -/
+theorem map_defined (lnPrior lnLike : List β) (h1 : lnPrior ≠ []) (h2 : lnLike ≠ []) :
+    ∃ i, mapIndex lnPrior lnLike = some i := by
+  apply argmax_isSome
+  cases lnPrior <;> cases lnLike <;> simp_all [post]
+end map
+
+section field
+variable {α : Type} [Field α] [LinearOrder α] [IsStrictOrderedRing α]
+
+/-! ## max_phase_gap -/
+
+/-- the definition spelled out: with the phases sorted as `a :: r`, `circGap` is the maximum of the interior
+arcs `x[i+1] - x[i]` AND the arc through phase 1 → 0, `a + 1 - last` -/
+theorem circGap_is_largest_arc (l : List α) (a : α) (r : List α) (hs : isort l = a :: r) (g : α) :
+    circGap l = some g ↔
+      g ∈ gaps (a :: r) ++ [a + 1 - (a :: r).getLast (List.cons_ne_nil _ _)] ∧
+      ∀ x ∈ gaps (a :: r) ++ [a + 1 - (a :: r).getLast (List.cons_ne_nil _ _)], x ≤ g := by
+  unfold circGap; rw [hs, circGaps_eq, maxList_eq_some_iff]
+
+/-- defined exactly when there is at least one observation -/
+theorem circGap_defined (l : List α) : circGap l = none ↔ l = [] := circGap_eq_none_iff
+
+/-- the (repaired) implementation formula `concatenate((phase, phase + 1))` computes the definition, for every
+phase list -/
+theorem maxPhaseGap_eq_circGap (l : List α) : maxPhaseGap l = circGap l := maxPhaseGap_eq_circGap' l
+
+/-- so does the variant `concatenate((phase, phase[:1] + 1))` -/
+theorem maxPhaseGapHead_eq_circGap (l : List α) : maxPhaseGapHead l = circGap l := maxPhaseGapHead_eq_circGap' l
+
+/-- the formula of the pinned tree, `concatenate((phase, phase))`, computes the maximum of the interior arcs and
+`first - last` instead: the arc through phase 1 → 0 is never considered (this is the defect) -/
+theorem maxPhaseGapPinned_misses_wrap (l : List α) (a : α) (r : List α) (hs : isort l = a :: r) :
+    maxPhaseGapPinned l = maxList (gaps (a :: r) ++ [a - (a :: r).getLast (List.cons_ne_nil _ _)]) :=
+  maxPhaseGapPinned_eq l a r hs
+
+/-- independent of the order of the observations -/
+theorem circGap_perm {l l' : List α} (h : l.Perm l') : circGap l = circGap l' := circGap_perm' h
+
+/-- invariant under time reversal of the phase pattern, `φ ↦ frac (-φ)`, including observations at phase 0 -/
+theorem circGap_reflect (l : List α) (hl : ∀ φ ∈ l, 0 ≤ φ ∧ φ < 1) :
+    circGap (l.map refl) = circGap l := circGap_reflect' l hl
+
+/-- invariant under a common phase shift `φ ↦ frac (φ + c)` -/
+theorem circGap_rotate (c : α) (l : List α) (hl : ∀ φ ∈ l, 0 ≤ φ ∧ φ < 1) :
+    circGap (l.map (rot c)) = circGap l := circGap_rotate' c l hl
+
+/-! ## phase_coverage -/
+
+/-- `phase_coverage` = number of occupied bins / number of bins -/
+theorem phaseCoverage_def (n : Nat) (hn : n ≠ 0) (l : List α) :
+    phaseCoverage n l =
+      some ((((Finset.range n).filter (fun k => ∃ φ ∈ l, inBin n k φ = true)).card : α) / (n : α)) := by
+  unfold phaseCoverage
+  rw [if_neg hn, occupied_eq_card]
+
+/-- bin `k` is `[k/n, (k+1)/n)`, the last bin is closed at 1 -/
+theorem inBin_def (n k : Nat) (φ : α) :
+    inBin n k φ = true ↔
+      (k : α) / n ≤ φ ∧ (φ < ((k + 1 : Nat) : α) / n ∨ (k + 1 = n ∧ φ ≤ ((k + 1 : Nat) : α) / n)) :=
+  inBin_iff n k φ
+
+/-- independent of the order of the observations -/
+theorem phaseCoverage_perm (n : Nat) {l l' : List α} (h : l.Perm l') : phaseCoverage n l = phaseCoverage n l' := by
+  unfold phaseCoverage occupied; rw [hist_perm n h]
+
+/-- no phase is counted in two bins -/
+theorem bins_disjoint {n : Nat} (hn : n ≠ 0) {j k : Nat} (hj : j < n) (hk : k < n) {φ : α}
+    (h1 : inBin n j φ = true) (h2 : inBin n k φ = true) : j = k := inBin_unique hn hj hk h1 h2
+
+/-! ## periods_spanned -/
+
+/-- `periods_spanned` = (latest − earliest observation) / P -/
+theorem periodsSpanned_def (ts : List α) (P : α) (hP : P ≠ 0) (M m : α)
+    (hM : M ∈ ts ∧ ∀ x ∈ ts, x ≤ M) (hm : m ∈ ts ∧ ∀ x ∈ ts, m ≤ x) :
+    periodsSpanned ts P = some ((M - m) / P) := by
+  unfold periodsSpanned
+  rw [if_neg hP, maxList_eq_some_iff.mpr hM, minList_eq_some_iff.mpr hm]
+
+/-- independent of the order of the observations -/
+theorem periodsSpanned_perm {ts ts' : List α} (P : α) (h : ts.Perm ts') :
+    periodsSpanned ts P = periodsSpanned ts' P := by
+  unfold periodsSpanned; rw [maxList_perm h, minList_perm h]
+
+end field
+
+/-! ## RVData.phase and the symmetries at the level of observation times -/
+section floor
+variable {α : Type} [Field α] [LinearOrder α] [IsStrictOrderedRing α] [FloorRing α]
+
+/-- `RVData.phase` lies in `[0,1)` and differs from `(t - t_ref)/P` by an integer number of turns -/
+theorem phase_def (tref P t : α) :
+    0 ≤ phase Int.floor tref P t ∧ phase Int.floor tref P t < 1 ∧
+      ∃ k : ℤ, (t - tref) / P = k + phase Int.floor tref P t := by
+  rw [phase_eq_fract]
+  exact ⟨Int.fract_nonneg _, Int.fract_lt_one _, ⌊(t - tref) / P⌋, (Int.floor_add_fract _).symm⟩
+
+/-- every phase in `[0,1]` falls into exactly one bin -/
+theorem bins_partition {n : Nat} (hn : n ≠ 0) {φ : α} (h0 : 0 ≤ φ) (h1 : φ ≤ 1) :
+    ∃ k, (k < n ∧ inBin n k φ = true) ∧ ∀ j, (j < n ∧ inBin n j φ = true) → j = k := by
+  obtain ⟨k, hk, hb⟩ := inBin_exists hn h0 h1
+  exact ⟨k, ⟨hk, hb⟩, fun j hj => inBin_unique hn hj.1 hk hj.2 hb⟩
+
+/-- … so the histogram behind `phase_coverage` counts every observation exactly once -/
+theorem hist_total {n : Nat} (hn : n ≠ 0) (l : List α) (hl : ∀ φ ∈ l, 0 ≤ φ ∧ φ ≤ 1) :
+    (hist n l).sum = l.length := hist_total' hn l hl
+
+/-- `max_phase_gap` does not depend on the reference epoch used to fold the observations -/
+theorem circGap_tref_shift (tref tref' P : α) (ts : List α) :
+    circGap (ts.map (phase Int.floor tref' P)) = circGap (ts.map (phase Int.floor tref P)) := by
+  have h : ts.map (phase Int.floor tref' P) =
+      (ts.map (phase Int.floor tref P)).map (rot (Int.fract ((tref - tref') / P))) := by
+    rw [List.map_map]
+    apply List.map_congr_left
+    intro t _
+    simp only [Function.comp, phase_eq_fract]
+    rw [← fract_add_eq_rot]
+    congr 1; ring
+  rw [h]
+  apply circGap_rotate
+  intro φ hφ
+  obtain ⟨t, _, rfl⟩ := List.mem_map.mp hφ
+  exact ⟨(phase_def tref P t).1, (phase_def tref P t).2.1⟩
+
+/-- `max_phase_gap` is unchanged when the observing pattern is reversed in time (`t ↦ T - t`), whatever reference
+epochs are used before and after -/
+theorem circGap_time_reversal (T tref tref' P : α) (ts : List α) :
+    circGap (ts.map (fun t => phase Int.floor tref' P (T - t))) = circGap (ts.map (phase Int.floor tref P)) := by
+  have hmem : ∀ φ ∈ ts.map (phase Int.floor tref P), 0 ≤ φ ∧ φ < 1 := by
+    intro φ hφ
+    obtain ⟨t, _, rfl⟩ := List.mem_map.mp hφ
+    exact ⟨(phase_def tref P t).1, (phase_def tref P t).2.1⟩
+  have h : ts.map (fun t => phase Int.floor tref' P (T - t)) =
+      ((ts.map (phase Int.floor tref P)).map refl).map (rot (Int.fract ((T - tref - tref') / P))) := by
+    rw [List.map_map, List.map_map]
+    apply List.map_congr_left
+    intro t _
+    simp only [Function.comp, phase_eq_fract]
+    rw [← fract_neg_eq_refl, ← fract_add_eq_rot]
+    congr 1; ring
+  rw [h, circGap_rotate, circGap_reflect _ hmem]
+  intro φ hφ
+  obtain ⟨ψ, hψ, rfl⟩ := List.mem_map.mp hφ
+  rw [refl_eq_fract (hmem ψ hψ).1 (hmem ψ hψ).2]
+  exact ⟨Int.fract_nonneg _, Int.fract_lt_one _⟩
+
+end floor
+
+/-! ## non-vacuity: concrete instances over `ℚ` -/
+
+-- three observations bunched at phases 0, 0.1, 0.2: the largest empty arc is the wrap-around arc, 0.8 …
+example : circGap ([1/10, 0, 1/5] : List ℚ) = some (4/5) := by
+  rw [circGap_is_largest_arc _ 0 [1/10, 1/5] (by norm_num [isort, ins])]
+  norm_num [gaps]
+example : maxPhaseGap ([1/10, 0, 1/5] : List ℚ) = some (4/5) := by
+  rw [maxPhaseGap_eq_circGap, circGap_is_largest_arc _ 0 [1/10, 1/5] (by norm_num [isort, ins])]
+  norm_num [gaps]
+-- … while the pinned formula answers 0.1
+example : maxPhaseGapPinned ([1/10, 0, 1/5] : List ℚ) = some (1/10) := by
+  rw [maxPhaseGapPinned_misses_wrap _ 0 [1/10, 1/5] (by norm_num [isort, ins]), maxList_eq_some_iff]
+  norm_num [gaps]
+-- hypotheses of the symmetry theorems are satisfiable (phases in [0,1), one of them exactly 0)
+example : ∀ φ ∈ ([1/10, 0, 1/5] : List ℚ), 0 ≤ φ ∧ φ < 1 := by norm_num
+example : ([1/10, 0, 1/5] : List ℚ).map refl = [9/10, 0, 4/5] := by norm_num [refl]
+example : ([1/10, 0, 1/5] : List ℚ).map (rot (17/20)) = [19/20, 17/20, 1/20] := by norm_num [rot]
+-- MAP: the prior decides between equal likelihoods; ties go to the first row
+example : mapIndex ([-3, -1, -1] : List ℚ) [-2, -2, -2] = some 1 := by decide +kernel
+-- coverage: phases 0.05, 0.15, 0.95 and 1 with four bins occupy bins 0 and 3
+example : hist 4 ([1/20, 3/20, 19/20, 1] : List ℚ) = [2, 0, 0, 2] := by
+  norm_num [hist, List.range, List.range.loop, inBin, edge, List.filter]
+example : periodsSpanned ([3, 1, 7] : List ℚ) 2 = some 3 := by
+  rw [periodsSpanned_def _ _ (by norm_num) 7 1 (by norm_num) (by norm_num)]; norm_num
+
+end Diag
